@@ -62,10 +62,12 @@ int main(int argc, char** argv) {
     if (R.warm) { for (unsigned N : Ns) { Rig r(Cfg{4, 1, N, 0, {0}}); r.f->wakePotential(); } return 0; }
     for (unsigned n : ns) for (unsigned N : Ns) {
         if (N < 2 * n) continue;
-        Cfg c{n, 1, N, 0, {0}};
+        Cfg c{n, 1, N, 0, {0}, 6.f};
         // (a) basis of Re Z (with an imaginary part that must not matter)
         for (unsigned k0 = 0; k0 < N; k0++) for (int imv = 0; imv < 2; imv++) {
-            std::string kase = mcx::Desc()("part", "basis")("n", n)("N", N)("k", k0)("im", imv).str();
+            // the energy axis' cell size must not enter the spectrum: vary its extent (main() only builds equal extents, the API allows others)
+            c.pext = (k0 % 3 == 0) ? 6.f : (k0 % 3 == 1) ? 4.5f : 8.f;
+            std::string kase = mcx::Desc()("part", "basis")("n", n)("N", N)("k", k0)("im", imv).f("pext", c.pext).str();
             if (!R.mine(kase)) continue;
             if (R.out_of_time()) { R.not_completed = kase; goto done; }
             Rig rig(c);
